@@ -52,6 +52,9 @@ type c02Scenario struct {
 	// BrokenBody: the request announces multipart/form-data but the body is not
 	// multipart, so the body processor fails (REQBODY_ERROR) in phase 2
 	BrokenBody bool `json:"broken_body,omitempty"`
+	// Defaults: SecDefaultAction lines with a disruptive default for some phases;
+	// every generated rule states its own action (pass included), which wins
+	Defaults []string `json:"default_actions,omitempty"`
 	// Pred: before the transaction under test, another one runs to completion on
 	// the same WAF with every token present (so that a ctl:ruleEngine rule fires)
 	// and is closed; the transaction under test gets the recycled object and must
@@ -118,6 +121,9 @@ func (sc *c02Scenario) text() string {
 		fmt.Fprintf(&sb, "SecRequestBodyLimit %d\nSecRequestBodyLimitAction %s\nSecResponseBodyLimit %d\nSecResponseBodyLimitAction %s\n", sc.SmallLim, act, sc.SmallLim, act)
 	}
 	sb.WriteString("SecAction \"id:9001,phase:1,pass,nolog,ctl:forceRequestBodyVariable=On\"\n")
+	for _, d := range sc.Defaults {
+		sb.WriteString(d + "\n")
+	}
 	for p := 2; p <= 5; p++ {
 		fmt.Fprintf(&sb, "SecAction \"id:900%d,phase:%d,pass,nolog\"\n", p, p)
 	}
@@ -135,7 +141,7 @@ func c02Gen(t *verifrt.Tape) *c02Scenario {
 		sc.Reject = t.Draw(2) == 0
 	}
 	n := 2 + t.Draw(7)
-	ctlUsed := false
+	ctlUsed := 0
 	for i := 0; i < n; i++ {
 		r := c02Rule{ID: 101 + i, Phase: 1 + t.Draw(5)}
 		r.Kind = pick(t, []string{"uri", "uri", "hdr", "hdr", "body", "status", "rhdr", "rbody", "always", "rberr"})
@@ -172,10 +178,10 @@ func c02Gen(t *verifrt.Tape) *c02Scenario {
 			r.Pre = pick(t, []string{"deny", "drop", "redirect", "pass"})
 			r.PreFirst = t.Draw(2) == 0
 		}
-		if !ctlUsed && t.Draw(7) == 0 {
+		if ctlUsed < 3 && t.Draw(6) == 0 {
 			r.CtlMode = pick(t, []string{"On", "DetectionOnly", "Off"})
 			r.Action, r.Status = "pass", 0
-			ctlUsed = true
+			ctlUsed++
 		}
 		sc.Rules = append(sc.Rules, r)
 	}
@@ -248,6 +254,13 @@ func c02Gen(t *verifrt.Tape) *c02Scenario {
 	}
 	sc.Calls = calls
 	sc.Pred = t.Draw(4) == 0
+	if t.Draw(4) == 0 {
+		for _, ph := range []int{1, 2, 3, 4} {
+			if t.Draw(2) == 0 {
+				sc.Defaults = append(sc.Defaults, fmt.Sprintf("SecDefaultAction \"phase:%d,%s,log\"", ph, pick(t, []string{"deny", "deny", "drop", "redirect:http://example.com/default"})))
+			}
+		}
+	}
 	return sc
 }
 
@@ -459,6 +472,7 @@ func c02Run(w *verifrt.World, tier Tier) *RunResult {
 		seen = len(mrs)
 		var ranNow []int
 		adopt := false // the rest of a phase after a ctl:ruleEngine switch is unspecified: take what happened
+		offOnly := false // ... and the switch to Off was the only mode switch that fired in that phase
 		byPhase := map[int][]int{}
 		for _, mr := range delta {
 			id := mr.Rule().ID()
@@ -571,6 +585,16 @@ func c02Run(w *verifrt.World, tier Tier) *RunResult {
 					return res
 				}
 				adopt = true
+				// the rest of the phase was taken as it happened: so is the mode it
+				// ended in (a later rule of the phase may have switched again)
+				ctlFired := 0
+				for _, id := range got {
+					if r := rules[id]; r != nil && r.CtlMode != "" {
+						m.mode = r.CtlMode
+						ctlFired++
+					}
+				}
+				offOnly = ctlFired == 1
 			} else if fmt.Sprint(got) != fmt.Sprint(want) {
 				res.fail("C02", "fired-rules", fmt.Sprintf("phase%d/%s", p, fpx()), "call %d (%s): phase %d fired %v, expected %v (data visible: uri=%q hdr=%v body=%q status=%q rhdr=%v rbody=%q; mode %s)%s", ci, c.Op, p, got, want, m.uri, m.reqHdr, m.reqBodyVar, m.statusVar, m.respHdr, m.respBodyVar, m.mode, ctx())
 				return res
@@ -579,7 +603,7 @@ func c02Run(w *verifrt.World, tier Tier) *RunResult {
 		// ---- what the call returns / the transaction records
 		cur := itOf(tx.Interruption())
 		if adopt {
-			if m.interruption == nil && cur != nil && m.mode == "Off" {
+			if m.interruption == nil && cur != nil && m.mode == "Off" && offOnly {
 				// whatever the rest of the phase evaluates after a rule switched the
 				// engine off: an engine that is Off interrupts nothing
 				res.fail("C02", "off-interrupts", fpx(), "call %d (%s): a rule switched the engine Off and a later rule of the same phase interrupted the transaction: %v (returned %v)%s", ci, c.Op, cur, itOf(ret), ctx())
